@@ -300,3 +300,28 @@ CHECKS["C16"]["text"] += (" (h) type x use: a variable of each of 16 types, decl
 CHECKS["C17"]["text"] += (" Failures raised WHILE AN IMPORTED MODULE RUNS ITS TOP LEVEL: 5 kinds x 0..2 functions below the module's top level x import form x import statement at module level /"
                           " in a block / in a function x 1 or 2 modules between entry and failing module; the trace lists those functions, each module's top level and the function holding the import.")
 CHECKS["C19"]["text"] += (" Argument vectors of different lengths (0 .. 3) in sequences of 2 and 3 calls, alternating between the two libraries, the first call returning a value or none.")
+
+# ---- additions made in rounds 9 to 11 ----
+CHECKS["C01"]["text"] += (" Two loops one after the other at DIFFERENT block depths (7 wrappings), every counter kind (anonymous / fresh / colliding), to / through, stepped, both orders, in a function and at module level"
+                          " (2 940 programs): what one loop leaves behind meets the names the next loop makes for itself.")
+CHECKS["C09"]["text"] += (" The loop-sequence layer of C01 (two loops at different block depths) is part of the quick corpus.")
+CHECKS["C02"]["text"] += (" Return paths that hinge on literal conditions. The catalogue gained 30 entries: single-name unpacking, writes to a character of a string, a function held in a field called through an alias"
+                          " of the class (alias of alias, parameter of alias type, optional of the class), wide integer literals as operands next to a variable, unary minus through an alias, and present optionals handed out by"
+                          " built-ins as right operand of an op-assignment (variable / element / field target), as receiver of a method call and as operand of && / || / ^.")
+CHECKS["C05"]["text"] += (" The non-finite doubles inf, -inf and NaN (no literal denotes them: they are built at run time) against one another and against three values of every kind under all 16 operators; the most"
+                          " negative values also as literal expressions.")
+CHECKS["C06"]["text"] += (" HALF-FOLDED rendering: one operand of the operator is a variable, the other stays a literal (both sides), over every second leaf plus five wide integer literals (thorough: all leaves);"
+                          " it must behave as the rendering over two variables.")
+CHECKS["C07"]["text"] += (" Names of its own that equal a captured name: a loop counter (before / after an inner closure, inside a block, followed by modify), a block local, a typed local, a parameter (read, modify in a nested"
+                          " block) and a local assigned from an inner closure that reads the captured variable - 13 bodies x owner alive / escaped / module, the captured variable observed through a second closure.")
+CHECKS["C08"]["text"] += (" A field named like a variable of the enclosing scope: 8 member forms (method reads / modifies the bare name, has a local or a parameter of that name, a closure in a method, a sibling method, the"
+                          " constructor) x owner module / function / escaped, two objects; the Self-chain shape of the same-named-classes family is rendered through a variable (it used to be refused by the compiler: vacuity guards per shape).")
+CHECKS["C10"]["text"] += (" Optional constants written through `get` / `or` (five path forms), a module reached through a second name (`ma = mod; ma.x = ..`), a class alias declared with the constant's name, `modify` after a"
+                          " local shadow in a nested block, unpacking onto several existing names (two constants, swapped, with a fresh name, constant + variable), a constant bound twice by one unpacking declaration.")
+CHECKS["C11"]["text"] += (" Importer variables named like the module's state.")
+CHECKS["C12"]["text"] += (" `?=` onto a target that holds a present value; payload bool (the present value is false); a refused `T? == T` for int / str / bool is a violation.")
+CHECKS["C13"]["text"] += (" map / filter with callbacks that clear / shorten / extend the list being iterated; index_of(nil), nil == element; elements in the BOXED form a built-in hands out (a hidden state component: histories"
+                          " that store the boxed form are not merged with those that store the plain value); map keys read out of a list (`m[kl[0]] = v`, op=, read); seven scenarios of writes through references into the same container.")
+CHECKS["C14"]["text"] += (" Conversions and abs of the non-finite doubles; bigint indices into a string (in range, at the length, +-2^64 and neighbours).")
+CHECKS["C16"]["text"] += (" The type x use matrix has 52 uses: 12 more put the value (plain, negated, not-ed, indexed, unwrapped) as a LATER argument of a call / later element of a list or map literal.")
+CHECKS["C17"]["text"] += (" Further kinds: MIN / -1 (int, bigint, op-assignment, element), abs of the minimum, radix outside 2 ..= 36 (both parsers, below and above), negative repetition count; loops nested in if arms in the history.")
